@@ -16,6 +16,18 @@ CHECKS = {
     text="PSRun.tla models particles as records of provenance ids; TLC checks HistCoherent/CurCoherent on the bounded model and refutes the code-shaped variants (mask applied to some fields only, -inf draws kept). Every event of real runs over the option lattice (kernel x resampler x clustering x scalar/vector/blobs x boundary types x metric) is validated by TLC against the clauses RS_WholeCopies, MP_Coherent, MB_SameSlots, SW_PropCoherent, SW_Update, ME_Slots, CM_Coherent of PSRunTrace.tla.",
     note=sysnote("Test likelihoods are injective on the drawn points."),
     technique="TLA+ system spec (PSRun.tla) model-checked by TLC + trace validation of recorded runs (PSRunTrace.tla)", design="DESIGN.md §4 C07"),
+ "C08": dict(level="fault_enumeration",
+    text="Checkpoint.tla models the save as IO steps (open, write, flush, fsync, close, rename) with process death enabled in every state; TLC checks NeverTruncated / KeepsComplete / OldOrNew for the atomic protocol and refutes the in-place protocol. Every crash point the model enumerates - each IO call boundary and byte offsets of the pickle stream - is injected into the real save_state() with an old checkpoint under the final name (and as a first save); afterwards the final name must be absent or loadable and equal to the old or the new snapshot. Runs with save_every over {clustering, blobs, pool, kernel, cadence}: every checkpoint is loaded into a fresh sampler (Load event: restored == saved on every component incl. the random stream) and resumed to completion with the whole resumed trace validated by TLC against PSRunTrace.tla.",
+    note=sysnote("Process death is simulated in-process at intercepted IO calls (written bytes kept); power-loss semantics are out of scope."),
+    technique="TLA+ spec (Checkpoint.tla) model-checked by TLC; model-driven crash-point injection into the implementation; trace validation of load/resume runs (PSRunTrace.tla)", design="DESIGN.md §4 C08"),
+ "C09": dict(level="model_checking",
+    text="RngStream.tla models the provenance of numpy's global stream across library operations with the library's call graph; TLC checks NoLibReseed, NoReplay, ResumeContinues and Reproducible (two runs composed) and refutes the pinned tree's call graph. numpy.random.seed is wrapped (is the calling frame inside tempest?) and the full generator state is tagged at every step boundary of real runs, fits, saves and resumes; RngTrace.tla validates the recorded stream life incl. non-interference (same operation, identical data, two pre-seeds -> different post-states); Pair.tla validates bit-identity for equal random_state under different ambient streams and difference for different random_state.",
+    note=sysnote("The Mersenne-Twister itself is trusted."),
+    technique="TLA+ specs (RngStream.tla, RngTrace.tla, Pair.tla) model-checked by TLC; trace and pair validation of recorded runs", design="DESIGN.md §4 C09"),
+ "C10": dict(level="model_checking",
+    text="Pair.tla is the self-composition of a run at the grain of committed iterations with coupling relation R(c): same temperature, same particles, equal normalised weights and ESS, logz shifted by beta*c, final evidence shifted by c. Paired real runs (logL, logL+c, same seed, c in {+-1, +-37.5, +-1000}) over kernel x resampler x clustering x metric mode are projected and validated by TLC. Log-likelihoods are dyadic-valued and c dyadic so accept/reject decisions are bit-identical; a diverging pair is re-drawn with two further seeds (a rounding-level near-tie does not repeat, a defect does).",
+    note=sysnote("Weights/ESS/evidence compared at 1e-9 relative (the property says 'up to floating-point rounding'); temperatures and particles exactly."),
+    technique="TLA+ spec (Pair.tla) of the coupled runs; pair validation by TLC of recorded paired runs", design="DESIGN.md §4 C10"),
  "C11": dict(level="model_checking",
     text="PriorPhase.tla computes the warm-up evidence bookkeeping in exact rationals: TLC checks that admissible estimators stay in the convex hull of the per-batch supported fractions (Once, OneWhileNoInf) and refutes the add-the-correction-every-iteration design; every enumerated sequence of finite counts is replayed through the real pipeline at beta=0 with a scripted -inf pattern. PSRun clauses MP_NoInf, CM_NoInf, MP_LogzHull are validated by TLC on recorded runs of half-space targets.",
     note=sysnote("The 'final evidence converges to the supported integral' clause is statistical and not claimed. Known finding: a prior batch with no finite draw at all."),
